@@ -238,3 +238,31 @@ Proof. revert s. induction Ls as [|c Ls IH]; intros s HL; simpl; [rewrite andb_t
   rewrite E. destruct (negb (fal c w)), (s_holds s w); reflexivity. Qed.
 
 End TieMaxTop.
+
+(* the CNF dictionaries as preprocessing fills them, by their contract: one clause per CNF *)
+Section Canon.
+Variable n : nat.
+Variable D : list cond.
+Hypothesis Hnd : NoDup (map kz D).
+(* the dictionaries as the preprocessing fills them, by their contract: one clause per CNF *)
+Definition nf_of : dict Z scnf := map (fun c => (kz c, [fun w => negb (fal c w)])) D.
+Definition fd_of : dict Z scnf := map (fun c => (kz c, [fun w => fal c w])) D.
+Definition bb_of : pybase := Build_pybase (map (fun c => (kz c, c)) D).
+
+Lemma find_canon {V} (g:cond -> V) c : In c D -> zdict_find (map (fun c => (kz c, g c)) D) (kz c) = Some (g c).
+Proof. clear -Hnd. induction D as [|d D0 IH]; [intros []|]. simpl in Hnd. inversion Hnd as [|? ? Hni Hn']; subst.
+  intros [->|Hc]; simpl.
+  - rewrite Z.eqb_refl. reflexivity.
+  - destruct (kz d =? kz c)%Z eqn:E; [|auto]. apply Z.eqb_eq in E. exfalso. apply Hni. rewrite E. apply in_map. exact Hc. Qed.
+Lemma nf_of_keys : dict_keys nf_of = map kz D.
+Proof. unfold dict_keys, nf_of. rewrite map_map. reflexivity. Qed.
+Lemma nf_of_ok c : In c D -> exists cn, zdict_find nf_of (kz c) = Some cn /\ forall w, scnf_holds cn w = negb (fal c w).
+Proof. intros Hc. eexists. split; [apply (find_canon (fun c => [fun w => negb (fal c w)])); exact Hc|].
+  intros w. simpl. apply andb_true_r. Qed.
+Lemma fd_of_ok c : In c D -> exists cn, zdict_find fd_of (kz c) = Some cn /\ forall w, scnf_holds cn w = fal c w.
+Proof. intros Hc. eexists. split; [apply (find_canon (fun c => [fun w => fal c w])); exact Hc|].
+  intros w. simpl. apply andb_true_r. Qed.
+Lemma bb_of_ok c : In c D -> zdict_find (bb_conditionals bb_of) (kz c) = Some c.
+Proof. intros Hc. apply (find_canon (fun c => c)). exact Hc. Qed.
+
+End Canon.
